@@ -120,7 +120,9 @@ class BMCI:
         inds = np.argsort(w)
         self.pc1_e = 1.0 / w[inds[0]]
         self.pc1 = v[:, inds[0]]
-        self.pc1_proj = np.dot((y - self.y_mean), self.pc1)
+        # (element-wise, so that an observation equal to a database entry
+        # gets bit for bit the same projection in __find_hits)
+        self.pc1_proj = np.sum((y - self.y_mean) * self.pc1, axis=1)
 
         indices = np.argsort(self.pc1_proj)
         self.pc1_proj = self.pc1_proj[indices]
@@ -156,12 +158,14 @@ class BMCI:
                  :math:`\chi^2` limits.
 
         """
-        y_proj = np.dot(self.pc1, (y_obs - self.y_mean).ravel())
+        y_proj = np.sum((y_obs - self.y_mean).ravel() * self.pc1)
         s_l = y_proj - np.sqrt(2.0 * x2_max / self.pc1_e)
         s_u = y_proj + np.sqrt(2.0 * x2_max / self.pc1_e)
-        inds = np.searchsorted(self.pc1_proj, np.array([s_l, s_u]))
+        # The window is closed: entries exactly at its ends are candidates.
+        i_l = np.searchsorted(self.pc1_proj, s_l, side="left")
+        i_u = np.searchsorted(self.pc1_proj, s_u, side="right")
 
-        return inds[0], inds[1], inds[1] - inds[0]
+        return i_l, i_u, i_u - i_l
 
     def __gauss_prob(self, y_obs, y_database):
 
